@@ -963,13 +963,15 @@ func (r *reader) pushToken(src []byte) {
 
 	token := r.makeToken(src)
 	size := len(token)
-	if size == 1 && (token[0] == 't' || token[0] == 'T') {
+	isSym := false
+	switch {
+	case size == 1 && (token[0] == 't' || token[0] == 'T'):
 		obj = True
-		goto Push
-	}
-	if size == 3 && bytes.EqualFold([]byte("nil"), token) {
+	case size == 3 && bytes.EqualFold([]byte("nil"), token):
 		obj = nil
-		goto Push
+	default:
+		obj = Symbol(token)
+		isSym = true
 	}
 	if 0 < len(r.stack) {
 		switch r.stack[len(r.stack)-1] {
@@ -978,11 +980,11 @@ func (r *reader) pushToken(src []byte) {
 				newQuote = CLPkg.GetFunc("quote").Create
 			}
 			if len(r.stack) == 1 {
-				r.code = append(r.code, newQuote(List{Symbol(token)}))
+				r.code = append(r.code, newQuote(List{obj}))
 				r.stack[len(r.stack)-1] = nil
 				r.stack = r.stack[:0]
 			} else {
-				r.stack[len(r.stack)-1] = newQuote(List{Symbol(token)})
+				r.stack[len(r.stack)-1] = newQuote(List{obj})
 			}
 			return
 		case sharpQuoteMarker:
@@ -1002,11 +1004,11 @@ func (r *reader) pushToken(src []byte) {
 				newBackquote = CLPkg.GetFunc("backquote").Create
 			}
 			if len(r.stack) == 1 {
-				r.code = append(r.code, newBackquote(List{Symbol(token)}))
+				r.code = append(r.code, newBackquote(List{obj}))
 				r.stack[len(r.stack)-1] = nil
 				r.stack = r.stack[:0]
 			} else {
-				r.stack[len(r.stack)-1] = newBackquote(List{Symbol(token)})
+				r.stack[len(r.stack)-1] = newBackquote(List{obj})
 			}
 			return
 		case commaMarker:
@@ -1014,11 +1016,11 @@ func (r *reader) pushToken(src []byte) {
 				newComma = CLPkg.GetFunc("comma").Create
 			}
 			if len(r.stack) == 1 {
-				r.code = append(r.code, newComma(List{Symbol(token)}))
+				r.code = append(r.code, newComma(List{obj}))
 				r.stack[len(r.stack)-1] = nil
 				r.stack = r.stack[:0]
 			} else {
-				r.stack[len(r.stack)-1] = newComma(List{Symbol(token)})
+				r.stack[len(r.stack)-1] = newComma(List{obj})
 			}
 			return
 		case commaAtMarker:
@@ -1026,17 +1028,18 @@ func (r *reader) pushToken(src []byte) {
 				newCommaAt = CLPkg.GetFunc("comma-at").Create
 			}
 			if len(r.stack) == 1 {
-				r.code = append(r.code, newCommaAt(List{Symbol(token)}))
+				r.code = append(r.code, newCommaAt(List{obj}))
 				r.stack[len(r.stack)-1] = nil
 				r.stack = r.stack[:0]
 			} else {
-				r.stack[len(r.stack)-1] = newCommaAt(List{Symbol(token)})
+				r.stack[len(r.stack)-1] = newCommaAt(List{obj})
 			}
 			return
 		}
 	}
-	obj = r.resolveToken(token)
-Push:
+	if isSym {
+		obj = r.resolveToken(token)
+	}
 	if 0 < len(r.stack) {
 		r.stack = append(r.stack, obj)
 	} else {
